@@ -64,6 +64,7 @@ type FnCtx struct {
 	topMS            *ModSet // modifiable locations of the function under verification (loop frame invariants)
 	topEntry         *State
 	constArrays      map[string]string
+	witnesses        []Witness
 }
 
 type Frame struct {
